@@ -43,7 +43,7 @@ C_FUNCS = [
     ("tables.c", "tsk_edge_table_has_metadata"),
     ("tables.c", "tsk_node_table_append_columns"), ("tables.c", "tsk_node_table_set_columns"),
     ("tables.c", "tsk_node_table_extend"),
-    ("tables.c", "tsk_edge_table_extend"), ("tables.c", "tsk_migration_table_extend"), ("tables.c", "tsk_population_table_extend"),
+    ("tables.c", "tsk_edge_table_extend"), ("tables.c", "tsk_population_table_extend"),
     ("tables.c", "tsk_node_table_keep_rows"), ("tables.c", "tsk_mutation_table_keep_rows"),
     ("tables.c", "tsk_individual_table_keep_rows"),
     ("tables.c", "subset_ragged_double_column"), ("tables.c", "subset_remap_ragged_id_column"),
